@@ -209,10 +209,21 @@ def main():
     cs_fields = struct_fields(circ, r"pub\s+struct\s+ConstraintSystem\s*<[^{]*", "struct ConstraintSystem")
     pinned_fields = struct_fields(circ, r"pub\s+struct\s+PinnedConstraintSystem\s*<[^{]*", "struct PinnedConstraintSystem")
     dbg = strip_comments(body_after(circ, r"impl\s*<\s*F\s*:\s*Field\s*>\s*std::fmt::Debug\s+for\s+PinnedConstraintSystem", "Debug for PinnedConstraintSystem"))
-    cond = re.search(r"if\s+\*num_challenges\s*>\s*&0\s*\{(.*?)\}", dbg, re.S)
-    if not cond:
-        die("Debug for PinnedConstraintSystem: conditional block not recognised")
-    cond_fields = re.findall(r'\.field\(\s*"(\w+)"', cond.group(1))
+    # exactly one `if <condition> { ...fields... }` block; the condition is a disjunction of recognised tests
+    conds = list(re.finditer(r"\bif\s+([^{}]*?)\{(.*?)\}", dbg, re.S))
+    if len(conds) != 1:
+        die(f"Debug for PinnedConstraintSystem: expected exactly one conditional block, found {len(conds)}")
+    cond = conds[0]
+    cond_fields = re.findall(r'\.field\(\s*"(\w+)"', cond.group(2))
+    phase_cond = []
+    for d in cond.group(1).split("||"):
+        d = re.sub(r"\s+", " ", d).strip()
+        if re.fullmatch(r"\*num_challenges > &0", d):
+            phase_cond.append("num_challenges>0")
+        elif re.fullmatch(r"advice_column_phase\.iter\(\)\.any\(\|(\w+)\| \*\1 != FirstPhase\.to_sealed\(\)\)", d):
+            phase_cond.append("advice_phase_not_first")
+        else:
+            die(f"Debug for PinnedConstraintSystem: unrecognised test {d!r} in the condition of the multi-phase fields")
     all_dbg = re.findall(r'\.field\(\s*"(\w+)"', dbg)
     uncond_fields = [f for f in all_dbg if f not in cond_fields]
     if not all_dbg:
@@ -299,9 +310,12 @@ def main():
     o.append("/-- Fields printed only when `num_challenges > 0`. -/")
     o.append(f"def csDebugWithChallenges : List String := {lean_str_list(cond_fields)}")
     o.append("/-- All fields printed by `Debug for PinnedConstraintSystem` in source order, with `true` for those inside the")
-    o.append("`if *num_challenges > &0` block; the struct name given to `debug_struct`. -/")
+    o.append("conditional block (condition: `csDebugPhaseCondition`); the struct name given to `debug_struct`. -/")
     o.append("def csDebugOrder : List (String × Bool) := [" + ", ".join('("' + f + '", ' + ("true" if f in cond_fields else "false") + ")" for f in all_dbg) + "]")
     o.append(f"def csDebugName : String := {json_name}")
+    o.append("/-- Disjuncts of the condition under which the flagged fields are printed: `num_challenges>0` = `*num_challenges > &0`,")
+    o.append("`advice_phase_not_first` = `advice_column_phase.iter().any(|p| *p != FirstPhase.to_sealed())`. -/")
+    o.append(f"def csDebugPhaseCondition : List String := {lean_str_list(phase_cond)}")
     o.append("/-- Fields printed by `Debug for Advice` and the condition of the `phase` field (`self.phase != FirstPhase`). -/")
     o.append(f"def advicePhaseShownOnlyIfLater : Bool := {'true' if adv_cond else 'false'}")
     o.append("/-- Members of `PinnedEvaluationDomain` (derived `Debug`). -/")
